@@ -730,6 +730,9 @@ def run(prog, rep, tier):
     rep.rule('VALUE-dead', 'no result of a call is bound to a local that is never read (reaching '
              'definitions)')
     check_dead_computations(prog, rep, ['tenpy/simulations/simulation.py', 'tenpy/simulations/time_evolution.py', 'tenpy/simulations/ground_state_search.py'])
+    from ..flow import check_undefined_attrs
+    rep.rule('ATTR-defined', 'every self.X read names an attribute bound somewhere in the class family')
+    check_undefined_attrs(prog, rep, ['tenpy/simulations/simulation.py', 'tenpy/simulations/time_evolution.py'])
     return rep.finish(
         level='other',
         explanation='Crash typestate: %d reachable abstract file states, %d crash/step '
